@@ -4,6 +4,9 @@
 //!          armed returns null (FAIL_AT = k, 0-based); for `realloc` the old block stays valid.
 //!  MODE 2/3: every allocation made while armed is placed flush against a PROT_NONE page on
 //!            the left (2) or on the right (3); freed blocks are unmapped.
+//!  MODE 4: "arena": every request is served by bumping through a static zero-initialised arena
+//!          (never reused), so that the process keeps allocating after its address-space limit
+//!          has been lowered to 0 and only *direct* kernel requests (mmap) are refused.
 use std::alloc::{GlobalAlloc, Layout, System};
 use std::sync::atomic::{AtomicBool, AtomicI64, AtomicUsize, Ordering};
 
@@ -33,6 +36,30 @@ fn refuse() -> bool {
 }
 
 pub struct VAlloc;
+
+const ARENA_SIZE: usize = 64 << 20;
+static mut ARENA: [u8; ARENA_SIZE] = [0; ARENA_SIZE];
+static ARENA_NEXT: AtomicUsize = AtomicUsize::new(0);
+
+fn arena_base() -> usize {
+    unsafe { std::ptr::addr_of!(ARENA) as usize }
+}
+fn in_arena(ptr: *mut u8) -> bool {
+    (ptr as usize).wrapping_sub(arena_base()) < ARENA_SIZE
+}
+fn arena_alloc(layout: Layout) -> *mut u8 {
+    loop {
+        let cur = ARENA_NEXT.load(Ordering::SeqCst);
+        let start = (arena_base() + cur + layout.align() - 1) / layout.align() * layout.align() - arena_base();
+        let end = start + layout.size().max(1);
+        if end > ARENA_SIZE {
+            return std::ptr::null_mut();
+        }
+        if ARENA_NEXT.compare_exchange(cur, end, Ordering::SeqCst, Ordering::SeqCst).is_ok() {
+            return (arena_base() + start) as *mut u8;
+        }
+    }
+}
 
 unsafe fn guarded_alloc(layout: Layout, right: bool) -> *mut u8 {
     let size = layout.size().max(1);
@@ -96,6 +123,7 @@ unsafe impl GlobalAlloc for VAlloc {
         match MODE.load(Ordering::Relaxed) {
             2 => guarded_alloc(layout, false),
             3 => guarded_alloc(layout, true),
+            4 => arena_alloc(layout),
             1 => {
                 if refuse() {
                     return std::ptr::null_mut();
@@ -113,12 +141,16 @@ unsafe impl GlobalAlloc for VAlloc {
                 }
                 System.alloc_zeroed(layout)
             }
+            4 => arena_alloc(layout), // the arena is zero and never reused
             2 => guarded_alloc(layout, false), // fresh anonymous mappings are zero
             3 => guarded_alloc(layout, true),
             _ => System.alloc_zeroed(layout),
         }
     }
     unsafe fn dealloc(&self, ptr: *mut u8, layout: Layout) {
+        if in_arena(ptr) {
+            return;
+        }
         if !guarded_free(ptr) {
             System.dealloc(ptr, layout)
         }
@@ -133,7 +165,7 @@ unsafe impl GlobalAlloc for VAlloc {
             unlock();
             f
         };
-        if mode >= 2 || in_table {
+        if mode >= 2 || in_table || in_arena(ptr) {
             let np = self.alloc(new_layout);
             if !np.is_null() {
                 std::ptr::copy_nonoverlapping(ptr, np, layout.size().min(new_size));
